@@ -170,6 +170,8 @@ fn main() {
                         .with_order(entry.order as _);
                 }
 
+                // Free the frame that corresponds to the traced pfn (might be a part of the allocation)
+                let frame = FrameId(frame.0 + (pfn - a_pfn));
                 #[cfg(feature = "verif")]
                 eprintln!("VERIF put {pfn} {} {}", flags.order, frame.0);
                 if let Err(e) = llfree.put(frame, flags) {
